@@ -439,3 +439,78 @@ func hC14Alias() {
 	verifAssert(backendB.rec.calls == 1 && statusB == 200 && bytesEq(backendB.rec.body, expandBytes(rawB, expand)), "C14: the upload served in between reaches its backend unchanged")
 	verifAssert(poolsSound(tr), "C14: no two pooled buffers share memory after the uploads")
 }
+
+// hC14CloseDuringRead: a handler with two goroutines - one blocked in Read of the request body (the transcoder
+// is waiting for more client bytes in the middle of a message), the other one calling Close on that body.
+// Sequential model of that schedule: at the moment the client's body is being read mid-message, Close is
+// attempted; if the reader's lock is free it runs there and then (otherwise it has to wait and runs after the
+// Read). Whatever Close released then goes to "another RPC" (every pooled buffer is taken and marked) before the
+// blocked Read continues. Nothing released may be written afterwards.
+func hC14CloseDuringRead() {
+	cfg := &pipeCfg{maxMsg: 64, kind: fkBidi, clientCodec: CodecJSON, svcCodecs: []string{CodecProto}}
+	cfg.client = verifChoose("client", 3) // gRPC, gRPC-Web, Connect streaming
+	if cfg.client == 2 {
+		cfg.client = cfConnectStream
+	}
+	cfg.svcProtos = []Protocol{pipeProtocols[verifChoose("target", 3)]}
+	if verifChoose("sameCodec", 2) == 1 {
+		cfg.svcCodecs = []string{CodecJSON} // pure re-framing reader instead of the re-encoding one
+	}
+	if pipeIsPassThrough(cfg) {
+		return
+	}
+	p := newPipe(cfg)
+	if !p.buildOK {
+		return
+	}
+	p.req = buildClientRequest(cfg, []wireMsg{{abstract: []byte("abc")}, {abstract: []byte("de")}}, p.body)
+	p.body.chunk = 2
+	var taken []*bytes.Buffer
+	closedMidRead := false
+	p.tr.methods[pipePath].handler = http.HandlerFunc(func(w http.ResponseWriter, r *http.Request) {
+		tryClose := func() {
+			if closedMidRead || p.body.pos < 6 { // (inside the first message: envelope and one payload byte consumed)
+				return
+			}
+			free := false
+			switch rd := r.Body.(type) {
+			case *transformingReader:
+				if free = rd.mu.TryLock(); free {
+					rd.mu.Unlock()
+				}
+			case *envelopingReader:
+				if free = rd.mu.TryLock(); free {
+					rd.mu.Unlock()
+				}
+			}
+			if !free {
+				return // the other goroutine's Close waits for this Read
+			}
+			closedMidRead = true
+			r.Body.Close()
+			for i := 0; i < 4; i++ {
+				x := p.tr.bufferPool.Pool.Get()
+				if x == nil {
+					break
+				}
+				b := x.(*bytes.Buffer)
+				b.Reset()
+				b.WriteString("TAKEN-")
+				b.WriteByte(byte('0' + i))
+				taken = append(taken, b)
+			}
+		}
+		p.body.onRead = tryClose
+		readAllSized(r.Body, 16, 100)
+		p.body.onRead = nil
+		r.Body.Close()
+	})
+	p.tr.ServeHTTP(p.sink, p.req)
+	verifObsBool("closed-mid-read", closedMidRead)
+	verifReach("reader-and-closer")
+	for i, b := range taken {
+		want := "TAKEN-" + string([]byte{byte('0' + i)})
+		verifAssert(b.String() == want, "C14: a buffer released by Close is not filled by a Read that was still in progress")
+	}
+	verifAssert(poolsSound(p.tr), "C14: no pooled object is owned twice after a Close that raced a Read")
+}
